@@ -1663,6 +1663,10 @@ func (w *nilWalker) assertion(x *ast.TypeAssertExpr, f *facts) {
 		_ = ce
 		dyn = true
 	}
+	// an error value: its dynamic type is whatever the failing callee chose
+	if t := w.d.pkg.TypesInfo.TypeOf(x.X); t != nil && isErrorType(t) {
+		dyn = true
+	}
 	if dyn && !f.typeis[p+"::"+types.ExprString(x.Type)] && r.ok {
 		r.ok = false
 		r.msg = fmt.Sprintf("single-value type assertion %s panics when the dynamic type differs and is not dominated by a comma-ok test of the same assertion", types.ExprString(x))
